@@ -1,5 +1,5 @@
 (* C34 - proofs about models/Channel.v *)
-From Coq Require Import List NArith Bool Lia.
+From Coq Require Import List NArith Bool Lia String.
 Import ListNotations.
 Require Import V.lib.Bytes V.gen.ChannelRisks V.models.Channel.
 Open Scope N_scope.
@@ -38,4 +38,435 @@ Proof.
     destruct (is_nil_b r) eqn:Er.
     + rewrite default_risk_not_nil. reflexivity.
     + rewrite Er. reflexivity.
+Qed.
+
+(* ---------------------------------------------------------------- splitting and joining *)
+
+Definition noslash (x : bytes) : Prop := forallb (fun c => negb (is_slash c)) x = true.
+
+Lemma split_not_nil : forall s, split_slash s <> [].
+Proof.
+  induction s as [|c r IH]; simpl; [discriminate|].
+  destruct (is_slash c); [discriminate|]. destruct (split_slash r); discriminate.
+Qed.
+
+Lemma split_noslash : forall s, Forall noslash (split_slash s).
+Proof.
+  induction s as [|c r IH]; simpl.
+  - constructor; [reflexivity|constructor].
+  - destruct (is_slash c) eqn:E.
+    + constructor; [reflexivity|exact IH].
+    + destruct (split_slash r) as [|h t]; [constructor; [|constructor]|].
+      * unfold noslash. simpl. rewrite E. reflexivity.
+      * inversion IH; subst. constructor; [|assumption].
+        unfold noslash in *. simpl. rewrite E. simpl. assumption.
+Qed.
+
+Lemma split_app : forall x r, noslash x -> split_slash (x ++ slash :: r) = x :: split_slash r.
+Proof.
+  induction x as [|c x IH]; intros r H.
+  - reflexivity.
+  - unfold noslash in H. simpl in H. apply andb_true_iff in H. destruct H as [Hc Hx].
+    apply negb_true_iff in Hc. simpl. rewrite Hc. rewrite (IH r Hx). reflexivity.
+Qed.
+
+Lemma split_single : forall x, noslash x -> split_slash x = [x].
+Proof.
+  induction x as [|c x IH]; intros H.
+  - reflexivity.
+  - unfold noslash in H. simpl in H. apply andb_true_iff in H. destruct H as [Hc Hx].
+    apply negb_true_iff in Hc. simpl. rewrite Hc. rewrite (IH Hx). reflexivity.
+Qed.
+
+Lemma join_split : forall s, join_slash (split_slash s) = s.
+Proof.
+  induction s as [|c r IH]; [reflexivity|].
+  simpl. destruct (is_slash c) eqn:E.
+  - apply N.eqb_eq in E. subst c.
+    destruct (split_slash r) as [|h t] eqn:Er; [exfalso; exact (split_not_nil r Er)|].
+    change (join_slash ([] :: h :: t)) with ([] ++ slash :: join_slash (h :: t)). rewrite IH. reflexivity.
+  - destruct (split_slash r) as [|h t] eqn:Er; [exfalso; exact (split_not_nil r Er)|].
+    destruct t as [|h2 t].
+    + simpl in *. rewrite IH. reflexivity.
+    + change (join_slash ((c :: h) :: h2 :: t)) with ((c :: h) ++ slash :: join_slash (h2 :: t)).
+      change (join_slash (h :: h2 :: t)) with (h ++ slash :: join_slash (h2 :: t)) in IH.
+      rewrite <- app_comm_cons. rewrite IH. reflexivity.
+Qed.
+
+Lemma has_prefix_app : forall p l, has_prefix p l = true -> exists r, l = p ++ r.
+Proof.
+  induction p as [|x p IH]; intros l H.
+  - exists l. reflexivity.
+  - destruct l as [|y l]; [discriminate|]. simpl in H. apply andb_true_iff in H. destruct H as [H1 H2].
+    apply N.eqb_eq in H1. subst y. destruct (IH l H2) as [r Hr]. exists r. simpl. rewrite Hr. reflexivity.
+Qed.
+
+Lemma has_prefix_self_app : forall p r, has_prefix p (p ++ r) = true.
+Proof. induction p as [|x p IH]; intros r; [reflexivity|]. simpl. rewrite N.eqb_refl. simpl. apply IH. Qed.
+
+Lemma nil_app_false : forall (x y : bytes), is_nil_b y = false -> is_nil_b (x ++ y) = false.
+Proof. intros [|c x] y H; [exact H|reflexivity]. Qed.
+
+Lemma nil_app_false_l : forall (x y : bytes), is_nil_b x = false -> is_nil_b (x ++ y) = false.
+Proof. intros [|c x] y H; [discriminate|reflexivity]. Qed.
+
+Lemma is_nil_b_false : forall (l : bytes), is_nil_b l = false <-> l <> [].
+Proof. destruct l; simpl; split; intros; auto; try discriminate. congruence. Qed.
+
+(* ---------------------------------------------------------------- facts read off the generated table *)
+
+Lemma risk_nil : is_risk [] = false. Proof. reflexivity. Qed.
+Lemma risk_default : is_risk default_risk = true. Proof. reflexivity. Qed.
+Lemma noslash_default_risk : noslash default_risk. Proof. reflexivity. Qed.
+Lemma noslash_default_track : noslash default_track. Proof. reflexivity. Qed.
+Lemma default_track_not_nil : is_nil_b default_track = false. Proof. reflexivity. Qed.
+Lemma nil_not_default_track : beq [] default_track = false. Proof. reflexivity. Qed.
+
+Lemma risk_not_nil : forall r, is_risk r = true -> is_nil_b r = false.
+Proof. intros [|c r] H; [rewrite risk_nil in H; discriminate|reflexivity]. Qed.
+
+Global Opaque is_risk default_risk default_track.
+
+(* ---------------------------------------------------------------- what ParseVerbatim accepts *)
+
+(* the five shapes of an accepted channel string, with the component list it was split into *)
+Inductive vshape (a : bytes) : list bytes -> chan -> Prop :=
+  | ShA t r b : is_nil_b t = false -> is_risk r = true -> is_nil_b b = false ->
+      vshape a [t; r; b] (mkChan a [] t r b)
+  | ShB r b : is_risk r = true -> is_nil_b b = false -> vshape a [r; b] (mkChan a [] [] r b)
+  | ShC t r : is_nil_b t = false -> is_risk t = false -> is_risk r = true -> vshape a [t; r] (mkChan a [] t r [])
+  | ShD r : is_risk r = true -> vshape a [r] (mkChan a [] [] r [])
+  | ShE t : is_nil_b t = false -> is_risk t = false -> vshape a [t] (mkChan a [] t [] []).
+
+Definition eff_arch (sys a : bytes) : bytes := if is_nil_b a then sys else a.
+
+Lemma parse_verbatim_shape : forall sys s a ch,
+  parse_verbatim sys s a = Some ch -> vshape (eff_arch sys a) (split_slash s) ch.
+Proof.
+  intros sys s a ch H. unfold parse_verbatim in H. fold (eff_arch sys a) in H.
+  destruct (is_nil_b s); [discriminate|].
+  destruct (split_slash s) as [|x [|y [|z [|w l]]]]; try discriminate.
+  - destruct (is_risk x) eqn:Ex; unfold build in H; cbn in H.
+    + rewrite Ex in H. cbn in H. inversion H; subst. apply ShD; assumption.
+    + destruct (is_nil_b x) eqn:Nx; cbn in H; [discriminate|]. inversion H; subst. apply ShE; assumption.
+  - destruct (is_risk x) eqn:Ex; unfold build in H; cbn in H.
+    + rewrite Ex in H. cbn in H. destruct (is_nil_b y) eqn:Ny; cbn in H; [discriminate|].
+      inversion H; subst. apply ShB; assumption.
+    + destruct (is_risk y) eqn:Ey; cbn in H; [|discriminate].
+      destruct (is_nil_b x) eqn:Nx; cbn in H; [discriminate|]. inversion H; subst. apply ShC; assumption.
+  - unfold build in H; cbn in H.
+    destruct (is_risk y) eqn:Ey; cbn in H; [|discriminate].
+    destruct (is_nil_b x) eqn:Nx; cbn in H; [discriminate|].
+    destruct (is_nil_b z) eqn:Nz; cbn in H; [discriminate|].
+    inversion H; subst. apply ShA; assumption.
+Qed.
+
+(* and conversely: a string that splits into one of the shapes is accepted *)
+Lemma parse_verbatim_of_shape : forall sys s a ch,
+  vshape (eff_arch sys a) (split_slash s) ch -> parse_verbatim sys s a = Some ch.
+Proof.
+  intros sys s a ch H. unfold parse_verbatim. fold (eff_arch sys a).
+  assert (Hs : is_nil_b s = false).
+  { destruct s; [|reflexivity]. simpl in H. inversion H; subst; try discriminate;
+      match goal with X : is_risk [] = true |- _ => rewrite risk_nil in X; discriminate end. }
+  rewrite Hs. inversion H; subst; unfold build; cbn;
+    repeat (match goal with
+            | X : is_risk _ = _ |- _ => rewrite X
+            | X : is_nil_b _ = _ |- _ => rewrite X
+            end; cbn); reflexivity.
+Qed.
+
+Lemma shape_comps_noslash : forall s, Forall noslash (split_slash s). Proof. exact split_noslash. Qed.
+
+Ltac inv_forall :=
+  repeat match goal with
+         | H : Forall _ (_ :: _) |- _ => inversion H; clear H; subst
+         | H : Forall _ [] |- _ => clear H
+         end.
+
+(* ---------------------------------------------------------------- parse / print stability *)
+
+Lemma reassoc3 : forall t r b : bytes, (t ++ slash :: r) ++ slash :: b = t ++ slash :: (r ++ slash :: b).
+Proof. intros. rewrite <- app_assoc. reflexivity. Qed.
+
+Lemma split3 : forall t r b, noslash t -> noslash r -> noslash b ->
+  split_slash (t ++ slash :: (r ++ slash :: b)) = [t; r; b].
+Proof. intros. rewrite split_app by assumption. rewrite split_app by assumption. rewrite split_single by assumption. reflexivity. Qed.
+
+Lemma split2 : forall t r, noslash t -> noslash r -> split_slash (t ++ slash :: r) = [t; r].
+Proof. intros. rewrite split_app by assumption. rewrite split_single by assumption. reflexivity. Qed.
+
+Lemma beq_default_track_nil : forall t, beq t default_track = true -> is_nil_b t = false.
+Proof. intros t H. apply beq_eq in H. subst. apply default_track_not_nil. Qed.
+
+(* the heart of stability: the normalised name of an accepted channel is accepted again and normalises to the
+   same channel *)
+Lemma reparse_shape : forall a l ch, vshape a l ch -> Forall noslash l ->
+  exists ch', vshape a (split_slash (c_name (clean ch))) ch' /\ clean ch' = clean ch.
+Proof.
+  intros a l ch H F. inversion H; subst; inv_forall; unfold clean; cbn [c_arch c_name c_track c_risk c_branch].
+  - (* track/risk/branch *)
+    rewrite (risk_not_nil _ H1), H2.
+    destruct (beq t default_track) eqn:Et; cbn [is_nil_b].
+    + rewrite split2 by assumption. eexists; split; [apply ShB; assumption|].
+      unfold clean; cbn [c_arch c_name c_track c_risk c_branch].
+      rewrite nil_not_default_track, (risk_not_nil _ H1), H2. reflexivity.
+    + rewrite H0. rewrite reassoc3. rewrite split3 by assumption.
+      eexists; split; [apply ShA; assumption|].
+      unfold clean; cbn [c_arch c_name c_track c_risk c_branch].
+      rewrite Et, (risk_not_nil _ H1), H2, H0. rewrite ?reassoc3. reflexivity.
+  - (* risk/branch *)
+    rewrite nil_not_default_track, (risk_not_nil _ H0), H1. cbn [is_nil_b].
+    rewrite split2 by assumption. eexists; split; [apply ShB; assumption|].
+    unfold clean; cbn [c_arch c_name c_track c_risk c_branch].
+    rewrite nil_not_default_track, (risk_not_nil _ H0), H1. reflexivity.
+  - (* track/risk *)
+    rewrite (risk_not_nil _ H2). cbn [is_nil_b].
+    destruct (beq t default_track) eqn:Et; cbn [is_nil_b].
+    + rewrite split_single by assumption. eexists; split; [apply ShD; assumption|].
+      unfold clean; cbn [c_arch c_name c_track c_risk c_branch].
+      rewrite nil_not_default_track, (risk_not_nil _ H2). reflexivity.
+    + rewrite H0. rewrite split2 by assumption. eexists; split; [apply ShC; assumption|].
+      unfold clean; cbn [c_arch c_name c_track c_risk c_branch].
+      rewrite Et, (risk_not_nil _ H2), H0. reflexivity.
+  - (* risk *)
+    rewrite nil_not_default_track, (risk_not_nil _ H0). cbn [is_nil_b].
+    rewrite split_single by assumption. eexists; split; [apply ShD; assumption|].
+    unfold clean; cbn [c_arch c_name c_track c_risk c_branch].
+    rewrite nil_not_default_track, (risk_not_nil _ H0). reflexivity.
+  - (* track *)
+    cbn [is_nil_b].
+    destruct (beq t default_track) eqn:Et; cbn [is_nil_b].
+    + rewrite split_single by exact noslash_default_risk.
+      eexists; split; [apply ShD; exact risk_default|].
+      unfold clean; cbn [c_arch c_name c_track c_risk c_branch].
+      rewrite nil_not_default_track, (risk_not_nil _ risk_default). reflexivity.
+    + rewrite H0. rewrite split2 by (assumption || exact noslash_default_risk).
+      eexists; split; [apply ShC; (assumption || exact risk_default)|].
+      unfold clean; cbn [c_arch c_name c_track c_risk c_branch].
+      rewrite Et, (risk_not_nil _ risk_default), H0. reflexivity.
+Qed.
+
+Theorem parse_print_stable : forall sys s a c,
+  parse sys s a = Some c -> parse sys (chan_string c) a = Some c.
+Proof.
+  intros sys s a c H. unfold parse in *.
+  destruct (parse_verbatim sys s a) as [ch|] eqn:E; [|discriminate]. inversion H; subst c; clear H.
+  apply parse_verbatim_shape in E.
+  destruct (reparse_shape _ _ _ E (split_noslash s)) as [ch' [Hs Hc]].
+  unfold chan_string. rewrite (parse_verbatim_of_shape _ _ _ _ Hs). rewrite Hc. reflexivity.
+Qed.
+
+(* ---------------------------------------------------------------- the full form *)
+
+Definition shown_track (c : chan) : bytes := if is_nil_b (c_track c) then default_track else c_track c.
+Definition full_form (c : chan) : bytes :=
+  shown_track c ++ slash :: c_risk c ++ (if is_nil_b (c_branch c) then [] else slash :: c_branch c).
+
+Lemma fields_of_split : forall s l, split_slash s = l -> Forall (fun x => is_nil_b x = false) l -> fields_slash s = l.
+Proof.
+  intros s l E F. unfold fields_slash. rewrite E. clear E. induction F; [reflexivity|].
+  simpl. rewrite H. simpl. rewrite IHF. reflexivity.
+Qed.
+
+Lemma full_shape : forall a l ch, vshape a l ch -> Forall noslash l ->
+  is_risk (c_risk (clean ch)) = true /\
+  beq (c_track (clean ch)) default_track = false /\
+  chan_full (clean ch) = Some (full_form (clean ch)).
+Proof.
+  intros a l ch H F.
+  inversion H; subst; inv_forall; unfold chan_full, full_form, shown_track, full_of_string, clean;
+    cbn [c_arch c_name c_track c_risk c_branch].
+  - rewrite (risk_not_nil _ H1), H2.
+    destruct (beq t default_track) eqn:Et; cbn [is_nil_b].
+    + split; [assumption|]. split; [exact nil_not_default_track|].
+      rewrite (nil_app_false_l _ _ (risk_not_nil _ H1)).
+      rewrite (fields_of_split _ [r; b]); [|apply split2; assumption|repeat constructor; auto using risk_not_nil].
+      rewrite H1. reflexivity.
+    + rewrite H0. split; [assumption|]. split; [first [reflexivity|assumption]|].
+      rewrite reassoc3. rewrite (nil_app_false_l _ _ H0).
+      rewrite (fields_of_split _ [t; r; b]); [|apply split3; assumption|repeat constructor; auto using risk_not_nil].
+      reflexivity.
+  - rewrite nil_not_default_track, (risk_not_nil _ H0), H1. cbn [is_nil_b].
+    split; [assumption|]. split; [first [reflexivity|assumption]|].
+    rewrite (nil_app_false_l _ _ (risk_not_nil _ H0)).
+    rewrite (fields_of_split _ [r; b]); [|apply split2; assumption|repeat constructor; auto using risk_not_nil].
+    rewrite H0. reflexivity.
+  - rewrite (risk_not_nil _ H2). cbn [is_nil_b].
+    destruct (beq t default_track) eqn:Et; cbn [is_nil_b].
+    + split; [assumption|]. split; [exact nil_not_default_track|].
+      rewrite (risk_not_nil _ H2).
+      rewrite (fields_of_split _ [r]); [|apply split_single; assumption|repeat constructor; auto using risk_not_nil].
+      rewrite H2. rewrite app_nil_r. reflexivity.
+    + rewrite H0. split; [assumption|]. split; [first [reflexivity|assumption]|].
+      rewrite (nil_app_false_l _ _ H0).
+      rewrite (fields_of_split _ [t; r]); [|apply split2; assumption|repeat constructor; auto using risk_not_nil].
+      rewrite H1. rewrite app_nil_r. reflexivity.
+  - rewrite nil_not_default_track, (risk_not_nil _ H0). cbn [is_nil_b].
+    split; [assumption|]. split; [first [reflexivity|assumption]|].
+    rewrite (risk_not_nil _ H0).
+    rewrite (fields_of_split _ [r]); [|apply split_single; assumption|repeat constructor; auto using risk_not_nil].
+    rewrite H0. rewrite app_nil_r. reflexivity.
+  - cbn [is_nil_b].
+    destruct (beq t default_track) eqn:Et; cbn [is_nil_b].
+    + split; [exact risk_default|]. split; [exact nil_not_default_track|].
+      rewrite (risk_not_nil _ risk_default).
+      rewrite (fields_of_split _ [default_risk]);
+        [|apply split_single; exact noslash_default_risk|repeat constructor; exact (risk_not_nil _ risk_default)].
+      rewrite risk_default. rewrite app_nil_r. reflexivity.
+    + rewrite H0. split; [exact risk_default|]. split; [first [reflexivity|assumption]|].
+      rewrite (nil_app_false_l _ _ H0).
+      rewrite (fields_of_split _ [t; default_risk]);
+        [|apply split2; (assumption || exact noslash_default_risk)
+         |repeat constructor; auto using (risk_not_nil _ risk_default)].
+      rewrite H1. rewrite app_nil_r. reflexivity.
+Qed.
+
+Theorem full_names_track_and_risk : forall sys s a c, parse sys s a = Some c ->
+  In (c_risk c) risks /\
+  shown_track c <> [] /\
+  (shown_track c = default_track <-> c_track c = []) /\
+  chan_full c = Some (full_form c).
+Proof.
+  intros sys s a c H. unfold parse in H.
+  destruct (parse_verbatim sys s a) as [ch|] eqn:E; [|discriminate]. inversion H; subst c; clear H.
+  apply parse_verbatim_shape in E.
+  destruct (full_shape _ _ _ E (split_noslash s)) as [Hr [Ht Hf]].
+  split; [|split; [|split]].
+  - Transparent is_risk. unfold is_risk in Hr. Opaque is_risk.
+    apply existsb_exists in Hr. destruct Hr as [x [Hx Hb]]. apply beq_eq in Hb. subst x. exact Hx.
+  - unfold shown_track. destruct (is_nil_b (c_track (clean ch))) eqn:N.
+    + apply is_nil_b_false. exact default_track_not_nil.
+    + apply is_nil_b_false. exact N.
+  - unfold shown_track. destruct (is_nil_b (c_track (clean ch))) eqn:N.
+    + apply is_nil_b_true in N. tauto.
+    + apply beq_neq in Ht. apply is_nil_b_false in N. tauto.
+  - exact Hf.
+Qed.
+
+(* ---------------------------------------------------------------- Resolve *)
+
+Lemma hd_comp_split : forall s h l, split_slash s = h :: l -> hd_comp s = h.
+Proof. intros s h l E. unfold hd_comp. rewrite E. reflexivity. Qed.
+
+(* what Resolve returns when the request starts with a risk name *)
+Theorem resolve_risk_first : forall cur new ch,
+  parse_verbatim [] cur dash = Some ch -> is_nil_b new = false -> is_risk (hd_comp new) = true ->
+  resolve cur new = Some (if is_nil_b (c_track ch) then new else c_track ch ++ slash :: new).
+Proof.
+  intros cur new ch Hc Hn Hr. unfold resolve. rewrite Hn.
+  assert (Hcur : is_nil_b cur = false).
+  { unfold parse_verbatim in Hc. destruct (is_nil_b cur); [discriminate|reflexivity]. }
+  rewrite Hcur, Hc, Hr. destruct (is_nil_b (c_track ch)); reflexivity.
+Qed.
+
+(* a request without a track (risk or risk/branch) resolved against a parseable current channel parses to the
+   current track with the requested risk and branch - provided the current track is not spelled like a risk *)
+Theorem risk_only_keeps_track : forall cur new ch nc,
+  parse_verbatim [] cur dash = Some ch ->
+  parse_verbatim [] new dash = Some nc ->
+  c_track nc = [] ->
+  is_risk (c_track ch) = false ->
+  exists r rc,
+    resolve cur new = Some r /\
+    r = (if is_nil_b (c_track ch) then new else c_track ch ++ slash :: new) /\
+    parse_verbatim [] r dash = Some rc /\
+    c_track rc = c_track ch /\ c_risk rc = c_risk nc /\ c_branch rc = c_branch nc.
+Proof.
+  intros cur new ch nc Hc Hn Ht Hg.
+  assert (Hnew : is_nil_b new = false).
+  { unfold parse_verbatim in Hn. destruct (is_nil_b new); [discriminate|reflexivity]. }
+  pose proof (parse_verbatim_shape _ _ _ _ Hn) as Sn.
+  pose proof (parse_verbatim_shape _ _ _ _ Hc) as Sc.
+  pose proof (split_noslash new) as Fn. pose proof (split_noslash cur) as Fc.
+  assert (Hhd : is_risk (hd_comp new) = true).
+  { inversion Sn; subst; simpl in Ht; subst;
+      try (match goal with X : is_nil_b [] = false |- _ => discriminate X end);
+      match goal with X : _ = split_slash new |- _ => symmetry in X; rewrite (hd_comp_split _ _ _ X) end; assumption. }
+  rewrite (resolve_risk_first _ _ _ Hc Hnew Hhd).
+  destruct (is_nil_b (c_track ch)) eqn:Nt.
+  - exists new, nc. apply is_nil_b_true in Nt. rewrite Nt, Ht. repeat split; auto.
+  - assert (Tn : noslash (c_track ch)).
+    { inversion Sc; subst; cbn [c_track] in *; try discriminate;
+        match goal with X : _ = split_slash cur |- _ => rewrite <- X in Fc end; inv_forall; assumption. }
+    set (t := c_track ch) in *.
+    inversion Sn; subst; simpl in Ht; subst;
+      try (match goal with X : is_nil_b [] = false |- _ => discriminate X end).
+    + (* new = risk/branch *)
+      match goal with X : _ = split_slash new |- _ => symmetry in X; rename X into En end.
+      exists (t ++ slash :: new), (mkChan (eff_arch [] dash) [] t r b). repeat split; auto.
+      apply parse_verbatim_of_shape. rewrite split_app by assumption. rewrite En.
+      apply ShA; assumption.
+    + (* new = risk *)
+      match goal with X : _ = split_slash new |- _ => symmetry in X; rename X into En end.
+      exists (t ++ slash :: new), (mkChan (eff_arch [] dash) [] t r []). repeat split; auto.
+      apply parse_verbatim_of_shape. rewrite split_app by assumption. rewrite En.
+      apply ShC; assumption.
+Qed.
+
+(* ---------------------------------------------------------------- ResolvePinned *)
+
+(* anything that starts with track/ and is accepted by the parser has that track *)
+Lemma prefixed_track : forall t x rc, noslash t -> is_risk t = false ->
+  parse_verbatim [] (t ++ slash :: x) dash = Some rc -> c_track rc = t.
+Proof.
+  intros t x rc Nt Rt H. apply parse_verbatim_shape in H. rewrite split_app in H by assumption.
+  inversion H; subst; try reflexivity;
+    try (match goal with X : is_risk ?r = true, Y : is_risk ?r = false |- _ => rewrite X in Y; discriminate end);
+    exfalso; eapply split_not_nil; eauto.
+Qed.
+
+Theorem pinned_cannot_switch : forall track new, track <> [] ->
+  match resolve_pinned track new with
+  | POk r => (r = track \/ has_prefix (track ++ [slash]) r = true) /\
+             (forall rc, parse_verbatim [] r dash = Some rc -> c_track rc = track)
+  | PInvalid | PSwitch => True
+  end.
+Proof.
+  intros track new Ht. unfold resolve_pinned.
+  apply is_nil_b_false in Ht. rewrite Ht.
+  destruct (parse_verbatim [] track dash) as [ch|] eqn:E; [|exact I].
+  destruct (verbatim_track_only ch) eqn:Vo; cbn [negb]; [|exact I].
+  pose proof (parse_verbatim_shape _ _ _ _ E) as S. pose proof (split_noslash track) as F.
+  pose proof (join_split track) as J.
+  unfold verbatim_track_only in Vo. apply andb_true_iff in Vo. destruct Vo as [Vo Vb].
+  apply andb_true_iff in Vo. destruct Vo as [Vt Vr]. apply negb_true_iff in Vt.
+  assert (Hshape : c_track ch = track /\ noslash track /\ is_risk track = false).
+  { inversion S; subst; cbn [c_track c_risk c_branch] in *; try congruence;
+      try (match goal with X : is_risk ?r = true, Y : is_nil_b ?r = true |- _ =>
+             rewrite (risk_not_nil _ X) in Y; discriminate end).
+    match goal with X : _ = split_slash track |- _ => rewrite <- X in J, F end.
+    simpl in J. subst t. inv_forall. auto. }
+  destruct Hshape as [Ect [Nt Rt]]. rewrite Ect.
+  assert (Pre : forall x, track ++ [slash] ++ x = track ++ slash :: x) by reflexivity.
+  destruct (is_nil_b new) eqn:Nn.
+  - split; [left; reflexivity|]. intros rc Hrc. rewrite E in Hrc. injection Hrc as <-. exact Ect.
+  - destruct (is_risk (hd_comp new) && negb (is_nil_b track)) eqn:Hr.
+    + split; [right; apply has_prefix_self_app|].
+      intros rc Hrc. rewrite <- app_assoc in Hrc. rewrite Pre in Hrc.
+      exact (prefixed_track _ _ _ Nt Rt Hrc).
+    + destruct (negb (beq new track) && negb (has_prefix (track ++ [slash]) new)) eqn:Hs; [exact I|].
+      apply andb_false_iff in Hs. destruct Hs as [Hs|Hs]; apply negb_false_iff in Hs.
+      * apply beq_eq in Hs. subst new. split; [left; reflexivity|].
+        intros rc Hrc. rewrite E in Hrc. injection Hrc as <-. exact Ect.
+      * split; [right; exact Hs|]. intros rc Hrc.
+        destruct (has_prefix_app _ _ Hs) as [x Hx]. subst new.
+        rewrite <- app_assoc in Hrc. rewrite Pre in Hrc.
+        exact (prefixed_track _ _ _ Nt Rt Hrc).
+Qed.
+
+(* the counterexample that makes the guard of risk_only_keeps_track necessary *)
+Definition bad_cur : bytes := bs "edge/stable/hotfix"%string.
+Definition bad_new : bytes := bs "beta"%string.
+
+Lemma risk_only_refuted :
+  exists cur new ch nc r rc,
+    parse_verbatim [] cur dash = Some ch /\ parse_verbatim [] new dash = Some nc /\ c_track nc = [] /\
+    resolve cur new = Some r /\ parse_verbatim [] r dash = Some rc /\ c_track rc <> c_track ch.
+Proof.
+  exists bad_cur, bad_new.
+  Transparent is_risk default_risk default_track.
+  eexists. eexists. eexists. eexists.
+  split; [vm_compute; reflexivity|]. split; [vm_compute; reflexivity|]. split; [reflexivity|].
+  split; [vm_compute; reflexivity|]. split; [vm_compute; reflexivity|]. vm_compute. discriminate.
 Qed.
